@@ -55,9 +55,10 @@ def gen(rng):
     use_diamond = (not use_nested) and rng.random() < 0.25
     # in the module file the template's formal parameter may be spelled like a rule of the importing grammar (it is local to the module's template)
     pname = rng.choice(['x', 'x', 'start'] + main_rules[1:]) if use_template else 'x'
+    tprio = rng.choice(['', '', '.2', '.-1']) if use_template else ''       # a priority on the template definition (every instance inherits it)
     def modline(k, v):
         if k == 'tp{x}':
-            return 'tp{%s}: %s\n' % (pname, re.sub(r'\bx\b', pname, v))
+            return 'tp{%s}%s: %s\n' % (pname, tprio, re.sub(r'\bx\b', pname, v))
         return '%s%s: %s\n' % (mods.get(k, ''), k, v)
     modtext = ('%import .n.n0\n' if use_nested else '') + ''.join(modline(k, v) for k, v in mod.items()) + 'MA: "a"\n' + ('MB: MA "b"\n' if term_chain else '')
     files['m.lark'] = modtext
@@ -96,7 +97,7 @@ def gen(rng):
     bodies, imods = {}, {}
     for n, b in mod.items():
         if n == 'tp{x}':
-            bodies[('tp' if import_template else 'modq__tp') + '{x}'] = sub(b)
+            bodies[('tp' if import_template else 'modq__tp') + '{x}' + tprio] = sub(b)
         else:
             bodies[mangle(n)] = sub(b); imods[mangle(n)] = mods.get(n, '')
     for n, b in nested.items():
@@ -120,7 +121,7 @@ def gen(rng):
         sub2 = lambda body: re.sub(r'\b(_?[a-zA-Z][_a-zA-Z0-9]*)\b', lambda m_: m_.group(1) if m_.group(1) == 'x' else pref(m_.group(1)), body)
         for n, b in mod.items():
             if n == 'tp{x}':
-                inl += 'bq__tp{x}: %s\n' % sub2(b)
+                inl += 'bq__tp{x}%s: %s\n' % (tprio, sub2(b))
             else:
                 inl += '%s%s: %s\n' % (mods.get(n, ''), pref(n), sub2(b))
         inl += 'BQ__MA: "a"\n' + ('BQ__MB: BQ__MA "b"\n' if term_chain else '')
@@ -203,6 +204,52 @@ def _case(seed):
         shutil.rmtree(d, ignore_errors=True)
 
 
+def _template_priority_case(seed):
+    """a template defined with a priority: every instance must behave like the same rule written out by hand with that priority (the priority decides an
+    Earley ambiguity under resolve, and a reduce/reduce conflict under LALR)"""
+    from lark import Lark
+    from lark.exceptions import GrammarError, LarkError, UnexpectedInput
+    rng = random.Random(seed)
+    p_ = rng.choice([2, 3, -1, 5]); q_ = rng.choice([None, 1, 4])
+    imported = rng.random() < 0.5
+    body = rng.choice(['x', 'x x?', '"<" x ">" | x'])
+    comp = rng.choice(['A', 'A A?', '"<" A ">" | A'])
+    tdef = 'item{x}.%d: %s\n' % (p_, body)
+    rest = 'start: item{A} | plain\nplain%s: %s\nA: "a"\n%%ignore " "\n' % ('' if q_ is None else '.%d' % q_, comp)
+    d = tempfile.mkdtemp(prefix='larkverif_c17_')
+    try:
+        if imported:
+            open(os.path.join(d, 'tm.lark'), 'w').write(tdef)
+            g1 = '%import .tm.item\n' + rest
+        else:
+            g1 = tdef + rest
+        g2 = 'item_a.%d: %s\n' % (p_, body.replace('x', 'A')) + rest.replace('item{A}', 'item_a')
+        out = {'with_template': g1, 'module': tdef if imported else None, 'written_out': g2, 'diffs': []}
+        for kw in (dict(parser='earley', ambiguity='resolve'), dict(parser='lalr')):
+            ps = []
+            for g in (g1, g2):
+                try:
+                    ps.append(Lark(g, source_path=os.path.join(d, 'main.lark'), **kw))
+                except (GrammarError, LarkError) as e:
+                    ps.append('ERR ' + type(e).__name__ + ': ' + str(e)[:60])
+            if isinstance(ps[0], str) or isinstance(ps[1], str):
+                if isinstance(ps[0], str) != isinstance(ps[1], str):
+                    out['diffs'].append({'parser': kw['parser'], 'construction': [x if isinstance(x, str) else 'builds' for x in ps]})
+                continue
+            for text in ('a', 'a a', '< a >', ''):
+                r = []
+                for p in ps:
+                    try:
+                        t = p.parse(text); r.append(str(t.children[0].data).replace('item_a', 'item'))
+                    except UnexpectedInput:
+                        r.append('reject')
+                if r[0] != r[1]:
+                    out['diffs'].append({'parser': kw['parser'], 'text': text, 'with_template_chooses': r[0], 'written_out_chooses': r[1]})
+        return out
+    finally:
+        shutil.rmtree(d, ignore_errors=True)
+
+
 def _mangle_case(args):
     prefix, aliases, names = args
     from lark.load_grammar import _get_mangle
@@ -229,6 +276,17 @@ def run(ctx, res):
             raise InfraError(r)
         if r != m:
             res.corr_break('_get_mangle differs from the Lean mangle', {'prefix': job[0], 'aliases': job[1], 'names': job[2], 'code': r, 'model': m})
+    # ---- templates with a priority vs the instance written out by hand
+    tseeds = [rng.randrange(1 << 30) for _ in range(tier_scale(ctx['tier'], 120, 1500))]
+    for seed, (st, rec) in zip(tseeds, pmap(_template_priority_case, tseeds, chunksize=8)):
+        if st != 'ok':
+            if st == 'exc' and not exc_in_lark(rec):
+                raise InfraError(rec)
+            res.violation('loading a grammar with a prioritised template raised an unexpected exception', {'seed': seed, 'detail': rec}); continue
+        res.case(['tprio', rec['with_template'], rec['module']], nontrivial=True)
+        res.count('template_priority_cases')
+        for dff in rec['diffs']:
+            res.violation('a template defined with a priority does not behave like its instance written out by hand with that priority', dict(rec, detail=dff))
     # ---- import vs hand-inlined text
     N = tier_scale(ctx['tier'], 2500, 30000) * (3 if ctx['deepen'] else 1)
     seeds = [rng.randrange(1 << 30) for _ in range(N)]
